@@ -271,6 +271,15 @@ def sampler_scenarios(seed, per_group, faults="none"):
                         "sched_seed": rnd.randrange(1 << 30), "sched_amp_us": 50, "group": [2, 2, 8],
                         "faults": [[k % 2, k, "FatalErr"]], "fail_kind": "fatal_sweep",
                         "script": [{"op": "wait", "ms": 4000}] * 6 + [{"op": "abort"}]})
+        # ... and an unrecoverable error whose failing evaluation is still in flight when the user aborts: the density
+        # announces the fault and keeps the call for 150 ms, the script waits for the announcement and aborts at once;
+        # abort() must hand the error back although the controller has begun to finalise
+        for j, k in enumerate([5, 8, 12, 17, 23, 30][:max(3, 2 * per_group)]):
+            st = {"num_tune": 6, "num_draws": 2, "num_chains": 2, "seed": 2000 + (seed % 1000) + j, "maxdepth": 3}
+            out.append({"preset": ["diag_nuts", "lowrank_nuts", "diag_mclmc"][j % 3], "dim": 2, "density": DENS[1], "settings": st,
+                        "num_cores": 2, "sched_seed": rnd.randrange(1 << 30), "sched_amp_us": 50, "group": [2, 2, 8],
+                        "faults": [[j % 2, k, "FatalErr"]], "fail_kind": "fatal_during_abort", "fatal_sleep_ms": 150,
+                        "script": [{"op": "wait_fatal", "ms": 1500}, {"op": "abort"}]})
     return out
 
 
